@@ -19,6 +19,8 @@ a = ap.parse_args()
 jobs = queue.Queue()
 if a.harmless:
     for f in sorted(glob.glob(os.path.join(VERIF, 'harmless', 'H-*.diff'))):
+        if a.only and os.path.basename(f)[:-5] not in a.only.split(','):
+            continue
         for i in range(1, 21):
             jobs.put((os.path.basename(f), f, 'C%02d' % i))
 else:
